@@ -351,8 +351,8 @@ func genStmt(rng *rand.Rand) refStmt {
 
 	// GROUP BY + window
 	wtype, trigger := "", ""
-	var wparams []string    // statement level: type:value
-	var cparams []string    // config level
+	var wparams []string // statement level: type:value
+	var cparams []string // config level
 	ctype := ""
 	if aggregate {
 		type gitem struct {
